@@ -2,6 +2,9 @@
 from . import register
 from . import r1, r1e, r2, r3, r3d, r4, r5, r6, r7, r8, r9, r10
 
+# the cache rules: necessary for every property whose answers pass through a stamped / evictable cache
+CACHE = [r3d.r3d_hit, r3d.r3d_stamp_origin, r3d.r3d_bump, r3d.r3d_readset, r3d.r3d_memo_context, r3d.r3d_membership_gate]
+
 register(
     "C12",
     "Static lock-discipline and recursion-guard analysis over the MIR of the binary crate: (R1a) no re-entrant "
@@ -28,7 +31,7 @@ register(
     "guard or removed by remove_if, (R2b) remove_if predicates are exactly is_empty(), (R2c) retain predicates under "
     "such a guard keep exactly the other files' elements, (R2d) per-file index maps are written only under the key of "
     "the file being analysed. Decides the shape of every mutation site, not sequential equivalence of whole analyses.",
-    [r2.r2a_atomic_ops, r2.r2b_remove_if, r2.r2c_retain, r2.r2d_own_file_keys, r2.r2f_no_whole_value_insert],
+    [r2.r2a_atomic_ops, r2.r2b_remove_if, r2.r2c_retain, r2.r2d_own_file_keys, r2.r2f_no_whole_value_insert, r1.r1f_no_try_lock, r2.r2g_canonicaliser_whole_path],
     assumptions=["DashMap entry()/get_mut()/remove_if() are atomic per key (dashmap 6.1.0 shard lock)",
                  "linearizability of whole analyses is not decided"],
 )
@@ -44,7 +47,7 @@ register(
     "(R3e) the entry's cleaning flag is false only on paths the document-synchronisation handlers cannot reach. "
     "Does not decide equality with a freshly built index for every history.",
     [r3.r3a_clean_before_append, r3.r3b_failure_path_readonly, r3.r3e_who_skips_cleaning, r3.r3h_wrappers_always_analyse,
-     r2.r2f_no_whole_value_insert, r3d.r3d_hit, r3d.r3d_stamp_origin, r3d.r3d_bump],
+     r2.r2f_no_whole_value_insert, r3d.r3d_hit, r3d.r3d_stamp_origin, r3d.r3d_bump, r8.r11a_analyze_then_publish, r10.r10h_analysed_marker],
 )
 
 register(
@@ -54,7 +57,7 @@ register(
     "analysis, which could run in parallel with did_open/did_change; (R3g) the cleaning analysis is never fed text read "
     "directly from disk. Which content wins for each timing is a schedule "
     "property and is not decided.",
-    [r3.r3e_who_skips_cleaning, r3.r3e2_parallel_scan, r3.r3g_buffer_content, r2.r2f_no_whole_value_insert],
+    [r3.r3e_who_skips_cleaning, r3.r3e2_parallel_scan, r3.r3g_buffer_content, r2.r2f_no_whole_value_insert, r3.r3a_clean_before_append, r10.r10h_analysed_marker, r8.r11a_analyze_then_publish, r2.r2g_canonicaliser_whole_path],
 )
 
 register(
@@ -62,7 +65,7 @@ register(
     "Structural conditions for references being the inverse of go-to-definition: (R3c) the per-file usage map and its "
     "per-name reverse index are appended in step from one FixtureUsage, removals are paired with a by-file clear of "
     "the reverse index, no other writer exists. The equivalence itself for every (definition, usage) pair is not decided.",
-    [r3.r3c_reverse_index, r3.r3a_clean_before_append, r5.r5c_selfref_pairing],
+    [r3.r3c_reverse_index, r3.r3a_clean_before_append, r5.r5c_selfref_pairing] + CACHE,
 )
 
 from . import r3d
@@ -85,7 +88,7 @@ register(
     "Visitor-coverage clauses of index fidelity: (R6a) the yield-line visitor and the generator-status visitor descend "
     "into the same statement-list fields, (R6b) both cover every statement-list field of the AST type universe except "
     "nested scopes. Field values (names, scopes, dependency order, docstrings, usages from marks) are not decided.",
-    [r6.r6a_yield_siblings, r6.r6b_yield, r6.r6d_all_decorators],
+    [r6.r6a_yield_siblings, r6.r6b_yield, r6.r6d_all_decorators, r8.r8d_decorator_keywords, r3.r3a_clean_before_append, r3.r3b_failure_path_readonly],
 )
 
 register(
@@ -93,7 +96,7 @@ register(
     "Visitor-coverage clauses of undeclared-fixture precision: (R6b) the body visitors descend into every nested "
     "statement list, (R6c) every name-binding form of the language is read by the local-variable collector and all "
     "parameter kinds are enumerated. The quick-fix text edit is a string-value property and is not decided.",
-    [r6.r6b_body, r6.r6c_binding_forms, r10.r10i_no_textual_path_prefix, r3.r3h_wrappers_always_analyse],
+    [r6.r6b_body, r6.r6c_binding_forms, r10.r10i_no_textual_path_prefix, r3.r3h_wrappers_always_analyse, r8.r11a_analyze_then_publish],
 )
 
 from . import r5
@@ -106,7 +109,7 @@ register(
     "(R5e) the same-file stage takes the last definition; (R10j) the skip filter of import extraction tests the module "
     "string that is recorded (relative imports keep their dots), so a conftest's relative import is not dropped. "
     "That the cascade order and the conftest walk coincide with pytest for every layout is not decided.",
-    [r5.r5a_c01, r5.r5e_same_file_last, r10.r10j_filter_sees_recorded_module],
+    [r5.r5a_c01, r5.r5e_same_file_last, r5.r5f_walk_bounds, r10.r10j_filter_sees_recorded_module] + CACHE + [r3.r3a_clean_before_append],
 )
 
 register(
@@ -115,7 +118,7 @@ register(
     "site of the cascade, (R5c) every caller that resolves usages pairs the non-excluding and the excluding resolver "
     "under a test of the current definition's name against the usage name (memo lookups included). Cursor-column "
     "arithmetic and chain semantics are not decided.",
-    [r5.r5b_filter_everywhere, r5.r5c_selfref_pairing],
+    [r5.r5b_filter_everywhere, r5.r5c_selfref_pairing] + CACHE,
 )
 
 from . import r4
@@ -140,7 +143,7 @@ register(
     "selection sites cover the same-file / conftest / plugin / third-party stages) use the same selector class per "
     "stage as the navigation cascade, (R5a) none of them selects by name alone. Agreement on every input and the "
     "hover/inlay text are not decided.",
-    [r5.r5d_siblings, _r5a_c05, r5.r5c_selfref_pairing],
+    [r5.r5d_siblings, _r5a_c05, r5.r5c_selfref_pairing, r5.r5f_walk_bounds] + CACHE,
 )
 
 register(
@@ -149,7 +152,7 @@ register(
     "before it is returned, (R4b) first-match exits from such iterations are reviewed for uniqueness of the match, "
     "(R4c) order-sensitive selections over the per-name definition vector (registration order = scan schedule) are "
     "pinned to one file. Ties under non-total sort keys and other channels of nondeterminism are not decided.",
-    [r4.r4a_unordered, r4.r4b_unordered_pick, r5.r4c_order_sensitive, r2.r2a_atomic_ops],
+    [r4.r4a_unordered, r4.r4b_unordered_pick, r5.r4c_order_sensitive, r2.r2a_atomic_ops, r10.r10f_no_short_circuit, r1.r1f_no_try_lock],
 )
 
 from . import r8
@@ -161,7 +164,7 @@ register(
     "returned in hash order; (R8b) the scope enum follows pytest's order, parse/as_str agree with it and a "
     "ScopeMismatch is built only under `fixture.scope > dependency.scope`. Soundness/completeness of the cycle "
     "search is not decided.",
-    [_r5a_c16, _r4a_c16, r8.r8b_scope_order],
+    [_r5a_c16, _r4a_c16, r8.r8b_scope_order, r8.r8d_decorator_keywords, r3.r3a_clean_before_append] + CACHE,
 )
 
 register(
@@ -170,7 +173,7 @@ register(
     "configuration loader, each Diagnostic and each collector sits on the not-disabled edge of the gate with its own "
     "code; (R11a) in did_open/did_change the analysis is always followed by publishing for the same document. "
     "Equality of the last published set with the latest content for every history is not decided.",
-    [r8.r8a_diagnostic_codes, r8.r11a_analyze_then_publish, r2.r2e_canonical_read_keys, r3.r3a_clean_before_append],
+    [r8.r8a_diagnostic_codes, r8.r11a_analyze_then_publish, r2.r2e_canonical_read_keys, r2.r2g_canonicaliser_whole_path, r3.r3a_clean_before_append] + CACHE,
 )
 
 register(
@@ -179,7 +182,7 @@ register(
     "it; (R11d) the json branch prints only serializer output / JSON literals; (R4a) CLI result vectors filled from "
     "unordered iteration are sorted; (R5c) the CLI's own usage counter pairs excluding / non-excluding resolution "
     "like the server. Equality of counts with the server and byte-identical output are not decided.",
-    [r8.r11b_exit_status, r8.r11d_json_output,
+    [r8.r11b_exit_status, r8.r11d_json_output, r8.r11e_report_root_is_scan_root,
      lambda ctx: r4.r4a_unordered(ctx, only_fns=["get_unused_fixtures", "print_fixtures_tree", "compute_definition_usage_counts"], rule="R4a"),
      r5.r5c_selfref_pairing],
 )
@@ -189,7 +192,7 @@ register(
     "Structural clauses of completion: (R11c) every push into the per-file view is guarded by the seen-set (one entry "
     "per name); (R8c) the textual fallback recognises every decorator module the AST recogniser accepts. Context "
     "classification per line, the offered set algebra and sort priorities are not decided.",
-    [r8.r11c_one_entry_per_name, r8.r8c_text_fallback, r3d.r3d_hit, r3d.r3d_stamp_origin],
+    [r8.r11c_one_entry_per_name, r8.r8c_text_fallback] + CACHE,
 )
 
 from . import r7
@@ -203,7 +206,7 @@ register(
     "their progress step on every path and the dependency-graph worklist expands each node once. Other panic sources "
     "(slice bounds, usize arithmetic, range order), panics inside dependencies, stack exhaustion and scan isolation are "
     "not decided.",
-    [r7.r7_slicing, r7.r7_u32_overflow, r7.r7_unwrap, r1e.r1e_loop_progress],
+    [r7.r7_slicing, r7.r7_u32_overflow, r7.r7_unwrap, r1e.r1e_loop_progress, r1.r1a_reentrancy, r1.r1b_order, r1.r1c_await, r1.r1d_recursion],
 )
 
 from . import r10
@@ -214,7 +217,7 @@ register(
     "of the value given to WalkDir::new) and the directory filter is depth-aware; (R10b) the walk's file-name predicate "
     "and the import-scan seed predicate use the same literal tests; (R10f) the parallel phase uses a "
     "non-short-circuiting consumer. That exactly pytest's file set is indexed for every tree is not decided.",
-    [r10.r10a_relocation, r10.r10a2_classification_relative, r10.r10b_filename_predicates, r10.r10f_no_short_circuit],
+    [r10.r10a_relocation, r10.r10a2_classification_relative, r10.r10b_filename_predicates, r10.r10f_no_short_circuit, r1.r1f_no_try_lock, r10.r10k_config_location],
 )
 
 register(
@@ -236,5 +239,5 @@ register(
     "str::find results) must not reach Position.character (UTF-16) unconverted, (R9b) the request's UTF-16 cursor "
     "column must not be compared with byte columns or used as a character index. Concrete token positions (off-by-one, "
     "range containment, duplicates) are value facts and are not decided.",
-    [r9.r9_bytes_to_utf16, r9.r9_utf16_vs_bytes, r3d.r3d_stamp_origin, r3.r3a_clean_before_append],
+    [r9.r9_bytes_to_utf16, r9.r9_utf16_vs_bytes, r9.r9_line_base, r3d.r3d_stamp_origin, r3.r3a_clean_before_append],
 )
